@@ -39,6 +39,8 @@ G2 == << GDoc("G2", "scalars", ("T" :> SObj(Props3("i", DProp(SInt, JInt(5)), "s
                                       @@ ("N" :> SObj(Props2("q", SInt, "r", SStr), {"q"}))),
          GDoc("G2", "enum-default", ("T" :> SObj(Props1("c", DProp(SRef("C"), JS(<<"g">>))), {}))
                                      @@ ("C" :> EnumS(<<JS(<<"r">>), JS(<<"g">>)>>))),
+         GDoc("G2", "inline-struct-default", ("T" :> SObj(Props1("in", DProp(SObj(Props2("flag", DProp(SBool, JBool(TRUE)), "n", DProp(SInt, JInt(5))), {}),
+                                                                                 JObj1("flag", JBool(FALSE)))), {}))),
          GDoc("G2", "type-default", ("T" :> WithDefault(SObj(Props1("q", SInt), {"q"}), JObj1("q", JInt(3))))),
          GDoc("G2", "newtype-default", ("T" :> SObj(Props1("s", DProp(SRef("S"), JS(<<"a","b">>))), {}))
                                         @@ ("S" :> [type |-> "string", minLength |-> 1])),
